@@ -8,7 +8,8 @@
      - SubgraphKeep on a WELL-FORMED request (no negative number, keep_wf: distinct existing nodes, every
        requested edge joins kept nodes): status 0 and the rows are the rows of a subgraph s that satisfies
        the specification of C18_subgraph_keep_spec (NodeMap = the request, each node carries exactly the
-       edges requested at it in request order, every new edge translated back is the old edge);
+       edges requested at it in request order, every new edge translated back is the old edge); when a
+       requested node is outside the graph or listed twice: status 2 (C18 subgraph_keep_panics);
      - SubgraphRemove: when the distinct ids to remove are at most the number of nodes, status 0 and the rows
        are those of a subgraph satisfying C18_subgraph_remove_spec; otherwise status 2 (make with a negative
        capacity panics).  This covers every request.
@@ -83,7 +84,9 @@ Definition keep_case_ok (rest : list Z) : Prop :=
     let neg := existsb (fun x => x <? 0) (nodes ++ eflat) in
     sg_matches (if neg then None else subgraph_keep g nodesN edgesN) status obs /\
     (neg = false -> keep_wf g nodesN edgesN ->
-       status = 0 /\ exists s, Forall2 sg_row s obs /\ keep_spec_concl g nodesN edgesN s).
+       status = 0 /\ exists s, Forall2 sg_row s obs /\ keep_spec_concl g nodesN edgesN s) /\
+    (* a node outside the graph or listed twice: the call panics *)
+    (neg = false -> (exists v, In v nodesN /\ (g_n g <= v)%N) \/ ~ NoDup nodesN -> status = 2).
 
 Theorem check_keep_sound : forall l c tag pos diag r,
   check_keep l = Some (verdict c tag pos diag, r) -> c = 0 \/ c = 1 -> c = 0 /\ r = [] /\ keep_case_ok l.
@@ -97,10 +100,11 @@ Proof.
   split; [reflexivity|]. split; [reflexivity|].
   exists a, a0, edges, a2, a3. cbv zeta.
   split; [match goal with E : plist_any p_sgobs _ = Some _ |- _ => apply (plist_any_layout _ _ p_sgobs_layout) in E end; lay; subst; rewrite ?app_nil_r; reflexivity|].
-  split; [exact Ewf|]. rewrite existsb_app. split; [exact M|].
-  intros Hneg Hwf. rewrite Hneg in M.
-  destruct (subgraph_keep_spec _ _ _ Hwf) as (s & Es & Hs). rewrite Es in M. destruct M as [M1 M2].
-  split; [exact M1|]. exists s. split; [exact M2|exact Hs].
+  split; [exact Ewf|]. rewrite existsb_app. split; [exact M|]. split.
+  - intros Hneg Hwf. rewrite Hneg in M.
+    destruct (subgraph_keep_spec _ _ _ Hwf) as (s & Es & Hs). rewrite Es in M. destruct M as [M1 M2].
+    split; [exact M1|]. exists s. split; [exact M2|exact Hs].
+  - intros Hneg Hbad. rewrite Hneg in M. rewrite (subgraph_keep_panics _ _ _ Hbad) in M. exact M.
 Qed.
 
 (* ====================================================================== op 8: SubgraphRemove *)
